@@ -27,6 +27,41 @@ def history_disagreement(steps, r):
             taken[name] = c[1]
     return None
 
+def distance_disagreement(rq, r, cur):
+    """what the rotation distances of the legacy model mean, stated on one answer of op legacy_distance for the request
+    [A, B] (B a rotation of A) and the current API's [canonical form, turns] for A: rotating the canonical form `rotations`
+    times (first strand to the end, the direction of rotate_once and of ComplexS.turns) gives the representation A; the
+    current API's turns denotes the same representation; DSDDuplicationError.rotations turns A's representation into B"""
+    sa, ta, sb, tb = rq
+    if isinstance(r, Err):
+        return f"legacy: {r!r}"
+    cf, rot, size, outcome = r
+    A, B = (list(sa), list(ta)), (list(sb), list(tb))
+    n = len(gen_pil.rotations(sa, ta))
+    if size != n or not isinstance(rot, int):
+        return f"size {size!r} / rotations {rot!r} of a complex of {n} strands"
+    at = lambda base, k: tuple(map(list, gen_pil.rotations(base[0], base[1])[k % n]))
+    if at(cf, rot) != A:
+        return f"DSD_Complex.rotations = {rot}, but {rot} turns of the canonical form {cf!r} give {at(cf, rot)!r}, not the representation"
+    if cur is not None and not isinstance(cur, Err) and not any(isinstance(x, Err) for x in cur):
+        ccf, turns = cur[0], cur[1]
+        if [list(ccf[0]), list(ccf[1])] != [list(cf[0]), list(cf[1])]:
+            return f"canonical form: legacy {cf!r}, current {ccf!r}"
+        if at(cf, turns) != at(cf, rot):
+            return f"DSD_Complex.rotations = {rot} and ComplexS.turns = {turns} denote different rotations of the canonical form"
+    if outcome[0] != "duplicate":
+        return f"the rotated request was not reported as a duplicate: {outcome!r}"
+    if outcome[2] is not True:
+        return "DSDDuplicationError.existing is not the registered complex"
+    if not isinstance(outcome[1], int) or at(A, outcome[1]) != B:
+        return (f"DSDDuplicationError.rotations = {outcome[1]!r}, but that many turns of the existing complex give "
+                f"{at(A, outcome[1]) if isinstance(outcome[1], int) else None!r}, not the requested representation")
+    return None
+
+
+def distance_requests(rq):
+    return [("legacy_distance", rq), ("c03_history", [rq[0], rq[1], [["canonical_form"], ["turns"]]])]
+
 
 def run(ctx):
     rng, quick = ctx.rng, ctx.tier == "quick"
@@ -122,6 +157,31 @@ def run(ctx):
             if isinstance(r, Err) or got != want:
                 found.append({"key": {"dup": rq[1]}, "input": rq[1], "what": f"legacy duplicate detection says {r!r}; rotation-equivalent: {want}",
                               "snippet": f"from dsdobjects.core.deprecated import DSD_Complex  # create {rq[1][:2]!r} then {rq[1][2:]!r}"})
+        # rotation distances: every representation of a complex of several strands registered, then requested again in
+        # another rotation; DSD_Complex.rotations / DSDDuplicationError.rotations must denote the turns that lead from the
+        # canonical form to the representation / from the existing object to the request (as ComplexS.turns does)
+        multi = [p for p in pop if p[0].count("+") >= 2]
+        few = [p for p in pop if p[0].count("+") < 2]
+        sel = multi[:20] + rng.sample(multi, min(len(multi), 80 if quick else 1500)) + rng.sample(few, min(len(few), 30 if quick else 300))
+        dist = []
+        for sq, st in sel:
+            rots = gen_pil.rotations(sq, st)
+            for k in (range(len(rots)) if len(rots) <= 4 else rng.sample(range(len(rots)), 4)):
+                j = rng.randrange(len(rots))
+                dist.append([rots[k][0], rots[k][1], rots[j][0], rots[j][1]])
+        rd = run_impl(sum([distance_requests(rq) for rq in dist], []))
+        nd = 0
+        for i, rq in enumerate(dist):
+            what = distance_disagreement(rq, rd[2 * i], rd[2 * i + 1])
+            if what:
+                nd += 1
+                found.append({"key": {"distance": rq}, "input": {"distance": rq}, "what": what,
+                              "snippet": ("import warnings; warnings.simplefilter('ignore')\n"
+                                          "from dsdobjects.core.deprecated import DSD_Complex, DSDDuplicationError\n"
+                                          f"a = DSD_Complex({rq[0]!r}, {rq[1]!r}, name='A'); print(a.canonical_form, a.rotations)\n"
+                                          f"try: DSD_Complex({rq[2]!r}, {rq[3]!r}, name='B')\n"
+                                          "except DSDDuplicationError as e: print(e.rotations)")})
+        ctx.cov["correspondence"]["legacy-rotation-distances(impl)"] = {"cases": len(dist), "failures": nd}
         # histories of creation requests (explicit / automatic names, rotations, refused requests in between): the legacy
         # registry reports a duplicate exactly when the current API resolves the request to the existing object
         hist = []
@@ -175,6 +235,12 @@ def replay(data):
         r = run_impl([("legacy_history", inp["history"])])[0]
         print(r)
         return 1 if (isinstance(r, Err) or history_disagreement(inp["history"], r)) else 0
+    if isinstance(inp, dict) and "distance" in inp:
+        r = run_impl(distance_requests(inp["distance"]))
+        print(r)
+        what = distance_disagreement(inp["distance"], r[0], r[1])
+        print(what)
+        return 1 if what else 0
     if not inp:
         print(json.dumps(data.get("broken_links"))[:2000]); return 1
     print(run_impl([("legacy_complex", inp), ("c03_history", [inp[0], inp[1], [["canonical_form"], ["size"], ["kernel_string"]]])]))
